@@ -388,6 +388,13 @@ func c06Check(strat workload.Strategy, pathAware bool, r0 map[string]interface{}
 				break
 			}
 		}
+		if f.Kind == workload.FaultNthGroup && (n == 1 || n == 2) {
+			// the list accessor failed once, with a group: the statement asks for
+			// one entry per member of a group a RESOLVER returns; for the accessor
+			// one entry for the failure (what the library does) and one per member
+			// are both taken - each at the member's index
+			continue
+		}
 		if n != f.Members {
 			return "failure_not_reported_exactly_once", fmt.Sprintf("failure #%d at %s (%s) must yield %d error entries, the response has %d (errors: %s)", f.N, f.Path, f.Kind, f.Members, n, workload.CanonLite(resp["errors"]))
 		}
